@@ -12,8 +12,11 @@ RowSet == [s : Surfaces, l : Ls, r : {1}, c : Cs, f : Feats]
 Styles == [final : BOOLEAN, blankBefore : BOOLEAN, blankBetween : BOOLEAN, blankAfter : BOOLEAN, force : BOOLEAN]
 
 VARIABLES rows, st
-Init == rows \in UNION {[1..n -> RowSet] : n \in 0..MaxRows} /\ st \in Styles
-Next == UNCHANGED <<rows, st>>
+(* rows are added one at a time so that TLC's workers share the enumeration *)
+Init == rows \in UNION {[1..n -> RowSet] : n \in 0..1} /\ st \in Styles
+Next == /\ Len(rows) >= 1 /\ Len(rows) < MaxRows
+        /\ \E r \in RowSet : rows' = Append(rows, r)
+        /\ UNCHANGED st
 Spec == Init /\ [][Next]_<<rows, st>>
 
 RoundTrip == LET p == ParseLex(Render(rows, st)) IN
